@@ -84,6 +84,8 @@ BEGIN {
   observe("B1")
 }
 pat_err && (1 / (d_zero + 0)) { print "never" }
+/^start/, /^stop/ { print "in-range-1", NR, $0 }
+$1 == "x,y", $1 == "q" { print "in-range-2", NR }
 {
   seen_slash = 0
   for (i_ = 1; i_ <= length(acts); i_++) { c_ = substr(acts, i_, 1); if (c_ == "/") { seen_slash = 1; continue }; if (seen_slash) act(c_) }
@@ -127,7 +129,7 @@ func genRun(t *rapid.T, probe bool) Run {
 		sb.WriteByte(letters[rapid.IntRange(0, len(letters)-1).Draw(t, "act")])
 	}
 	r := Run{Acts: sb.String(), Endm: rapid.SampledFrom(endings).Draw(t, "endm")}
-	lines := []string{"a b c", "x,y", "b,2,3", "1 2", "", "zz,b", "a;b", "q"}
+	lines := []string{"a b c", "x,y", "b,2,3", "1 2", "", "zz,b", "a;b", "q", "start here", "stop here", "start", "x,y"}
 	var in strings.Builder
 	for i := rapid.IntRange(0, 5).Draw(t, "nlines"); i > 0; i-- {
 		in.WriteString(rapid.SampledFrom(lines).Draw(t, "line") + "\n")
